@@ -228,6 +228,84 @@ theorem C10_recreate_after_gone (s s' : State) (hr : Reachable (init true) s) (h
     exact ⟨this.1, this.2.1⟩
   · cases hs
 
+/-- The atomic specification of one name: present or absent. `create` is the linearization point
+    of a successful CreateSubscription, `helperFinish` (= `finish_delete`) that of a successful
+    DeleteSubscription; every other step of the protocol is invisible to the specification. -/
+def P1.spec (present : Bool) : Label → Option Bool
+  | .create => if present then none else some true
+  | .helperFinish _ => if present then some false else none
+  | _ => some present
+
+/-- Forward simulation: every step of the concrete create/delete protocol — under every
+    interleaving — is a legal step of the atomic name specification, with the manager entry as
+    abstraction. Together with `C10_create_returns_registered` / `C10_delete_returns_absent` (the
+    answering steps lie after the linearization points, within the calls) this is per-name
+    linearizability of create / delete / get for the protocol model. -/
+theorem C10_lp_sim (s s' : State) (hr : Reachable (init true) s) (l : Label) (hs : step s l = some s') :
+    P1.spec s.mgr.isSome l = some s'.mgr.isSome := by
+  cases l with
+  | create =>
+    simp only [step] at hs
+    split at hs
+    · rename_i hn
+      simp only [Option.some.injEq] at hs; subst hs
+      simp [P1.spec, hn]
+    · cases hs
+  | helperFinish g =>
+    have h := (C10_delete_returns_absent s s' hr g hs)
+    simp [P1.spec, h.1, h.2.1]
+  | attachSend g =>
+    simp only [step] at hs; split at hs
+    · simp only [Option.some.injEq] at hs; subst hs; rfl
+    · cases hs
+  | topicTake =>
+    simp only [step] at hs
+    split at hs
+    · cases hs
+    · simp only [Option.some.injEq] at hs; subst hs; rfl
+    · simp only [Option.some.injEq] at hs; subst hs; rfl
+  | attachFinish g =>
+    simp only [step] at hs; split at hs
+    · simp only [Option.some.injEq] at hs; subst hs; rfl
+    · cases hs
+  | deleteStart =>
+    simp only [step] at hs; split at hs
+    · cases hs
+    · simp only [Option.some.injEq] at hs; subst hs; rfl
+  | actorDelete i =>
+    simp only [step] at hs
+    split at hs
+    · cases hs
+    · split at hs
+      · cases hs
+      · split at hs <;> (simp only [Option.some.injEq] at hs; subst hs; rfl)
+  | helperSend g =>
+    simp only [step] at hs; split at hs
+    · simp only [Option.some.injEq] at hs; subst hs; rfl
+    · cases hs
+
+/-- Whole runs: the abstraction of a run's final state is what the specification computes from the
+    run's labels. -/
+def P1.specRun : Bool → List Label → Option Bool
+  | b, [] => some b
+  | b, l :: ls => match P1.spec b l with
+    | some b' => P1.specRun b' ls
+    | none => none
+
+theorem C10_lp_run (ls : List Label) : ∀ (s s' : State), Reachable (init true) s → run s ls = some s' →
+    P1.specRun s.mgr.isSome ls = some s'.mgr.isSome := by
+  induction ls with
+  | nil => intro s s' _ h; simp only [run, Option.some.injEq] at h; subst h; rfl
+  | cons l rest ih =>
+    intro s s' hr h
+    simp only [run] at h
+    cases hs : step s l with
+    | none => rw [hs] at h; cases h
+    | some s1 =>
+      rw [hs] at h
+      simp only [P1.specRun, C10_lp_sim s s1 hr l hs]
+      exact ih s1 s' (Reachable.step hr hs) h
+
 end P1slice
 
 end Deltio
